@@ -142,9 +142,19 @@ impl Precedence {
     }
 }
 
-impl fmt::Display for Expr {
+/// Helper for printing a subexpression at a given precedence into a
+/// string, so its first character can be inspected.
+struct AtPrec<'a>(&'a Expr, Precedence);
+
+impl<'a> fmt::Display for AtPrec<'a> {
     fn fmt(&self, fmt: &mut fmt::Formatter<'_>) -> fmt::Result {
-        fn recurse(expr: &Expr, fmt: &mut fmt::Formatter<'_>, prec: Precedence) -> fmt::Result {
+        recurse(self.0, fmt, self.1)
+    }
+}
+
+fn recurse(expr: &Expr, fmt: &mut fmt::Formatter<'_>, prec: Precedence) -> fmt::Result {
+    {
+        {
             match *expr {
                 Expr::Unit { ref name } => write!(fmt, "{}", name),
                 Expr::Quote { ref string } => write!(fmt, "'{}'", string),
@@ -161,7 +171,15 @@ impl fmt::Display for Expr {
                     }
                     recurse(&binop.left, fmt, succ)?;
                     write!(fmt, "{}", binop.op.symbol())?;
-                    recurse(&binop.right, fmt, op_prec)?;
+                    // Only `^` is right-associative; every other operator
+                    // needs parentheses around a right operand of its own
+                    // precedence level.
+                    let right_prec = if binop.op == BinOpType::Pow {
+                        op_prec
+                    } else {
+                        succ
+                    };
+                    recurse(&binop.right, fmt, right_prec)?;
                     if prec < op_prec {
                         write!(fmt, ")")?;
                     }
@@ -197,7 +215,13 @@ impl fmt::Display for Expr {
                     }
                     for expr in exprs.iter().skip(1) {
                         write!(fmt, " ")?;
-                        recurse(expr, fmt, Precedence::Pow)?;
+                        // `a -b` would be read back as a subtraction.
+                        let text = AtPrec(expr, Precedence::Pow).to_string();
+                        if text.starts_with('-') || text.starts_with('+') {
+                            write!(fmt, "({})", text)?;
+                        } else {
+                            write!(fmt, "{}", text)?;
+                        }
                     }
                     if prec < Precedence::Mul {
                         write!(fmt, ")")?;
@@ -223,7 +247,8 @@ impl fmt::Display for Expr {
                         write!(fmt, "(")?;
                     }
                     write!(fmt, "{} of ", property)?;
-                    recurse(expr, fmt, Precedence::Div)?;
+                    // the parser reads the operand of `of` with parse_juxt
+                    recurse(expr, fmt, Precedence::Mul)?;
                     if prec < Precedence::Add {
                         write!(fmt, ")")?;
                     }
@@ -232,7 +257,11 @@ impl fmt::Display for Expr {
                 Expr::Error { ref message } => write!(fmt, "<error: {}>", message),
             }
         }
+    }
+}
 
+impl fmt::Display for Expr {
+    fn fmt(&self, fmt: &mut fmt::Formatter<'_>) -> fmt::Result {
         recurse(self, fmt, Precedence::Equals)
     }
 }
